@@ -53,6 +53,10 @@ def build_cases(rng, thorough):
             # 1 assignment to a name / attribute
             cases.append((f"{nm} = {L}\n", E({("B105", None)} if m else set()), dict(pos="assign-name", name=nm, lit=lit)))
             cases.append((f"obj.{nm} = {L}\n", E({("B105", None)} if m else set()), dict(pos="assign-attr", name=nm, lit=lit)))
+            # 1b chained assignment: the literal is assigned to EVERY target, whichever comes first (seeded change C16-m11 looked at targets[0] only)
+            cases.append((f"backup_ = {nm} = {L}\n", E({("B105", None)} if m else set()), dict(pos="assign-chained-second", name=nm, lit=lit)))
+            cases.append((f"a_ = b_ = obj.{nm} = {L}\n", E({("B105", None)} if m else set()), dict(pos="assign-chained-third-attr", name=nm, lit=lit)))
+            cases.append((f"{nm} = backup_ = {L}\n", E({("B105", None)} if m else set()), dict(pos="assign-chained-first", name=nm, lit=lit)))
             # 2 comparison
             cases.append((f"if {nm} == {L}:\n    pass\n", E({("B105", None)} if m else set()), dict(pos="compare-name", name=nm, lit=lit)))
             cases.append((f"if obj.{nm} != {L}:\n    pass\n", E({("B105", None)} if m else set()), dict(pos="compare-attr", name=nm, lit=lit)))
@@ -252,4 +256,4 @@ def _run_main(res, ctx):
 def run(res, ctx):
     _run_main(res, ctx)
     # the neighbourhood of every construct of bandit's example files (harness/metamorph.py): model vs implementation on this family's ids
-    metamorph.family(res, ctx, C, {"B103", "B104", "B105", "B106", "B107", "B108"}, 700, 4000)
+    metamorph.family(res, ctx, C, {"B103", "B104", "B105", "B106", "B107", "B108"}, 700, 4000, sections={"hardcoded_tmp_directory"}, cfg_want=lambda s: "tmp" in s or "/" in s)
